@@ -127,6 +127,7 @@ class Ctx:
         self.matchers = {}  # the property module's MATCHERS (set by check.py before run)
         self._known = None
         self._unlisted = 0  # failures so far that no known finding accounts for
+        self.anchor_coverage = None  # statement coverage of the anchored functions (drift.AnchorCoverage.summary)
         self.crash = None  # traceback when the harness itself raised while driving changed code
         self.search_only = False
         self.boost = 1  # multiplied when the proof/correspondence broke: failing-input search budget
@@ -556,10 +557,24 @@ def finish(ctx: Ctx, matchers=None, level="proof"):
         "wall_s": round(time.time() - ctx.t0, 2),
         "violations": len(violations) + (1 if rc == 1 and not violations else 0),
     }
+    ac = getattr(ctx, "anchor_coverage", None)
+    if ac:
+        # measurement only: the full list goes to .run/, the evidence keeps the capped one
+        full = ac.pop("_all_never_executed", None)
+        ev["coverage"]["anchor_coverage"] = ac
+        try:
+            with open(os.path.join(RUN, f"acov-{ctx.prop}.json"), "w") as fh:
+                json.dump(dict(ac, statements_never_executed=full if full is not None else ac["statements_never_executed"],
+                               tier=ctx.tier, seed=ctx.seed), fh, indent=1)
+        except OSError:
+            pass
     with open(os.path.join(EVIDENCE, f"{ctx.prop}.json"), "w") as fh:
         json.dump(ev, fh, indent=1, default=str)
     for l in lines:
         print(l)
+    if ac:
+        print(f"coverage: {ac['executed']}/{ac['statements']} statements of anchored functions executed "
+              f"({len(ac['functions_never_entered'])} of {ac['functions']} functions never entered)")
     print(
         f"[{ctx.prop}] tier={ctx.tier} seed={ctx.seed} theorems={n_dis}/{n_obl} "
         f"cases={ctx.evaluations} distinct={len(ctx._distinct)} corr_lines={ctx.corr_lines} "
